@@ -1488,6 +1488,36 @@ fn grid() {
                     }
                 }
             }
+            // zero-sized elements that are over-aligned: consumed from the front, from the back, then
+            // dropped; every element is dropped exactly once and nothing misbehaves on the way
+            {
+                use std::sync::atomic::{AtomicUsize, Ordering};
+                static ZDROPS: AtomicUsize = AtomicUsize::new(0);
+                #[repr(align(8))]
+                struct Za;
+                impl Drop for Za { fn drop(&mut self) { ZDROPS.fetch_add(1, Ordering::SeqCst); } }
+                for n in [0usize, 1, 3, 8, 9] {
+                    for f in 0..4usize {
+                        for b in 0..3usize {
+                            for how in 0..3 {
+                                ZDROPS.store(0, Ordering::SeqCst);
+                                let mut v: BVec<Za> = BVec::new_in(&bump);
+                                for _ in 0..n { v.push(Za); }
+                                let mut taken = 0usize;
+                                match how {
+                                    0 => { let mut it = v.into_iter(); for _ in 0..f { if it.next().is_some() { taken += 1; } } for _ in 0..b { if it.next_back().is_some() { taken += 1; } } let _ = it.as_slice().len(); drop(it); }
+                                    1 => { { let mut d = v.drain(..); for _ in 0..f { if d.next().is_some() { taken += 1; } } for _ in 0..b { if d.next_back().is_some() { taken += 1; } } } drop(v); }
+                                    _ => { v.truncate(f); v.retain(|_| true); let w = v.split_off(f.min(v.len()) / 2); drop(w); drop(v); }
+                                }
+                                let _ = taken;
+                                cases += 1;
+                                let d = ZDROPS.load(Ordering::SeqCst);
+                                if d != n { bad += 1; if bad <= 3 { println!("Q drain_adaptors overaligned_zst n={} front={} back={} how={} | dropped={} | {}", n, f, b, how, d, n); } }
+                            }
+                        }
+                    }
+                }
+            }
             // DrainFilter (no stable counterpart in std): yields some items, then is leaked or dropped
             // normally; nothing is dropped twice and nothing taken stays in the vector
             for n in [1usize, 4, 7] {
